@@ -27,8 +27,9 @@
    [reader_with junk] with [junk] — the root beside an error — universally quantified: it is irrelevant.  [reader_from_bytes]
    is the instance junk = None.
 
-   The second half ([resp_bytes_case]) is the executable form used by the correspondence run `respbytes` (harness
-   respbytes.go): Response.resp_case with the element tree computed by the model's own reader from the byte string. *)
+   Section 4b ([validate_response_bytes], [resp_bytes_case]) is the executable form used by the correspondence set `respbytes`
+   (harness respbytes.go): what the set `resp` evaluates, with NO element tree supplied by the harness — the root, and the root
+   of every decrypted plaintext, come from [bytes_parse] on the byte strings. *)
 From V Require Import Base Time Xml Ns Types Generated Decode Decrypt Deflate Profile Response Keys XmlTok
      GenPrelude GenPreludeD GenPreludeT GenPreludeE GenPreludeK GenPreludeDeflate
      GenFuncs GenTree GenDecrypt GenDecTree GenKeys GenDeflate
@@ -270,6 +271,45 @@ Section PipelineBytes.
     exists raw, root. split; [exact A|]. split; [exact B|]. exact (P_Response.response_sound dsig bytes_chain cfg now root r Hs C).
   Qed.
 End PipelineBytes.
+
+(* ================================================================ 4b. the executable form for the correspondence run *)
+(* decryptAssertions' chain with its first three steps (unmarshal EncryptedAssertion, getDecryptCert, DecryptBytes) answered
+   from a table (detached EncryptedAssertion -> plaintext BYTES or error) and its last step, parseResponse of the plaintext,
+   computed by the model from those bytes *)
+Fixpoint plaintext_table (t : list (node * res string)) (el : node) : res string :=
+  match t with
+  | [] => Err (EOther "decrypt oracle: unknown element")
+  | (k, v) :: r => if detached_eqb k el then v else plaintext_table r el
+  end.
+
+(* the value ValidateEncodedResponse returns on the decoded message [raw]: no tree is supplied, the root comes from
+   [bytes_parse] (tokenizer, tree building, attribute de-duplication; DEFLATE and the round-trip validator from tables) *)
+Definition validate_response_bytes (inflate : string -> Z -> string * bool) (rt_ok : string -> bool)
+           (dsig : node -> dsig_result) (plaintext : node -> res string) (cfg : config) (now : instant) (raw : string) : res response :=
+  do root <- bytes_parse inflate rt_ok cfg raw;
+  validate_response_tree dsig (fun det => do pt <- plaintext det; bytes_parse inflate rt_ok cfg pt) cfg now root.
+
+(* it is the model side of the theorems above, after base64 *)
+Lemma validate_response_bytes_is_entry inflate rt_ok dsig plaintext cfg now enc raw :
+  b64_decode enc = Ok raw ->
+  entry (bytes_parse inflate rt_ok cfg) enc
+        (validate_response_tree dsig (fun det => do pt <- plaintext det; bytes_parse inflate rt_ok cfg pt) cfg now)
+  = res_some (validate_response_bytes inflate rt_ok dsig plaintext cfg now raw).
+Proof.
+  intros Hb. unfold entry, validate_response_bytes. rewrite Hb.
+  destruct (bytes_parse inflate rt_ok cfg raw) as [root|e]; reflexivity.
+Qed.
+
+(* one case of the set respbytes: (configuration, clock, decoded message, DEFLATE table, round-trip-validator table,
+   signature table, plaintext table) -> the observables of ValidateEncodedResponse and RetrieveAssertionInfo *)
+Definition resp_bytes_case
+  (i : config * instant * string * list (string * Z * (string * bool)) * list (string * bool) *
+       list (node * dsig_result) * list (node * res string)) : val :=
+  match i with
+  | (cfg, now, raw, it, rt, dt, pt) =>
+      let v := validate_response_bytes (inflate_table it) (bytes_table rt false) (dsig_table dt) (plaintext_table pt) cfg now raw in
+      VL [res_val response_val v; res_val assertion_info_val (retrieve_info cfg now v)]
+  end.
 
 (* ================================================================ 5. non-vacuity: the instantiated parse stage on literal documents *)
 Definition ex_cfg : config :=
